@@ -159,6 +159,17 @@ func ruleOneReceiver(c *Ctx, classes []*chanClass) {
 					if inCycle(b) {
 						bad = "the receiving goroutine " + shortFn(rf) + " is started inside a loop at " + c.P.Pos(g.Pos()) + ": several consumers on one channel"
 					}
+					// started by a constructor: the constructor must not be called in a loop that the channel was made outside of
+					// (a fan-out created per configuration reload on the one MIDI input channel: the old one keeps reading too)
+					if host := topFunc(fn); host != topFunc(mk.Fn) && bad == "" {
+						if sites, ok := staticCallSites(c.P, host); ok {
+							for _, cs := range sites {
+								if inCycle(cs.Block()) && !(topFunc(mk.Fn) == topFunc(cs.Parent()) && inCycle(mk.Instr.Block())) {
+									bad = "the receiving goroutine " + shortFn(rf) + " is started by " + shortFn(host) + ", which is called inside a loop at " + c.P.Pos(cs.Pos()) + " while the channel it reads is made once: after the second iteration two consumers split the messages between them"
+								}
+							}
+						}
+					}
 				}
 			}
 		}
@@ -305,8 +316,9 @@ func ruleForwardOnce(c *Ctx, cf *chanFlow, classes []*chanClass) {
 					}
 				}
 			}
-			for _, s := range segs {
+			for si, s := range segs {
 				segments++
+				complete := p.End != "cut" || si < len(segs)-1 // (on a cut path only the last segment may be unfinished)
 				received := s.val != nil
 				okKnown, okVal := false, false
 				if s.okT != nil {
@@ -336,7 +348,7 @@ func ruleForwardOnce(c *Ctx, cf *chanFlow, classes []*chanClass) {
 						}
 					}
 				}
-				if received && (okKnown && okVal || s.okT == nil || (!okKnown && !closable[s.recv.Instr])) && p.End != "cut" {
+				if received && (okKnown && okVal || s.okT == nil || (!okKnown && !closable[s.recv.Instr])) && complete {
 					if fanOutLoop(s.sends) {
 						continue
 					}
